@@ -205,6 +205,220 @@ class Fn:
         return f"def {f.name} {' '.join(params)} : {TY[f.returns.id]} :=\n{body}"
 
 
+class ImplFn(Fn):
+    """`parseImpl(self, instring, loc, do_actions=True)` of a leaf element -> a Lean function into `Py.Ret`.
+
+    Differences to `Fn`: `self.<attr>` are extra parameters (types given by the caller: str | int | chars, chars = a set /
+    collection of one-character strings); an index expression `s[i]` is NOT totalised: an expression containing one has
+    Lean type `Option _` (`none` = IndexError raised while evaluating it, CPython's left-to-right, short-circuit order)
+    and an `if` over such a test propagates `Py.Ret.indexError`; `raise ParseException(instring, <loc>, ...)` and
+    `return <loc>, <tokens>` are the only exits."""
+
+    def __init__(self, fdef, where, attrs, name):
+        super().__init__(fdef, where)
+        self.attrs = attrs
+        self.name = name
+        self.used = []
+        self.fresh = 0
+
+    def var(self):
+        self.fresh += 1
+        return f"x{self.fresh}"
+
+    def bind(self, parts, combine):
+        """parts: [(text, raising)], combine: [texts] -> text.  Left-to-right evaluation."""
+        names, binds = [], []
+        for t, r in parts:
+            if r:
+                v = self.var()
+                binds.append((v, t))
+                names.append(v)
+            else:
+                names.append(t)
+        body = combine(names)
+        if not binds:
+            return body, False
+        out = f"(some {body})"
+        for v, t in reversed(binds):
+            out = f"(Option.bind {t} (fun {v} => {out}))"
+        return out, True
+
+    def opt(self, node):
+        if node is None or (isinstance(node, ast.Constant) and node.value is None):
+            return "none"
+        t, ty, r = self.rexpr(node)
+        if ty != "int" or r:
+            self.bad(node, "bound is not a plain int")
+        return f"(some {t})"
+
+    def expr(self, n):  # the non-raising interface used by inherited code paths
+        t, ty, r = self.rexpr(n)
+        if r:
+            self.bad(n, "index expression in a position where IndexError is not modelled")
+        return t, ty
+
+    def rexpr(self, n):
+        if isinstance(n, ast.Attribute) and isinstance(n.value, ast.Name) and n.value.id == "self":
+            if n.attr not in self.attrs:
+                self.bad(n, "self attribute without a declared type")
+            if n.attr not in self.used:
+                self.used.append(n.attr)
+            return f"self_{n.attr}", self.attrs[n.attr], False
+        if isinstance(n, ast.Subscript) and not isinstance(n.slice, ast.Slice):
+            s, ts, rs = self.rexpr(n.value)
+            i, ti, ri = self.rexpr(n.slice)
+            if ts != "str" or ti != "int":
+                self.bad(n, "index")
+            t, _ = self.bind([(s, rs), (i, ri)], lambda xs: f"(Py.item {xs[0]} {xs[1]})")
+            if rs or ri:
+                self.bad(n, "nested raising index")
+            return t, "str", True
+        if isinstance(n, ast.BoolOp):
+            parts = [self.rexpr(v) for v in n.values]
+            if any(ty != "bool" for _, ty, _ in parts):
+                self.bad(n, "and/or over non-bool")
+            is_and = isinstance(n.op, ast.And)
+            # fold from the right, short-circuit: later operands are only evaluated when needed
+            t, r = parts[-1][0], parts[-1][2]
+            for a, _, ra in reversed(parts[:-1]):
+                if not r:
+                    t, r = self.bind([(a, ra)], lambda xs: f"({xs[0]} {'&&' if is_and else '||'} {t})")
+                else:
+                    stop = "(some false)" if is_and else "(some true)"
+                    if ra:
+                        v = self.var()
+                        body = f"(if {v} then {t} else {stop})" if is_and else f"(if {v} then {stop} else {t})"
+                        t, r = f"(Option.bind {a} (fun {v} => {body}))", True
+                    else:
+                        t = f"(if {a} then {t} else {stop})" if is_and else f"(if {a} then {stop} else {t})"
+            return t, "bool", r
+        if isinstance(n, ast.Compare) and len(n.ops) == 1 and isinstance(n.ops[0], (ast.In, ast.NotIn)):
+            a, ta, ra = self.rexpr(n.left)
+            b, tb, rb = self.rexpr(n.comparators[0])
+            if ta != "str" or tb != "chars":
+                self.bad(n, "membership")
+            neg = "!" if isinstance(n.ops[0], ast.NotIn) else ""
+            t, r = self.bind([(a, ra), (b, rb)], lambda xs: f"({neg}Py.inChars {xs[0]} {xs[1]})")
+            return t, "bool", r
+        if isinstance(n, ast.Compare):
+            items = [n.left] + list(n.comparators)
+            tr = [self.rexpr(x) for x in items]
+            if not any(r for _, _, r in tr):
+                t, ty = Fn.expr(self, n)
+                return t, ty, False
+            if len(n.ops) != 1 or not isinstance(n.ops[0], (ast.Eq, ast.NotEq)) or tr[0][1] != tr[1][1]:
+                self.bad(n, "comparison with index expression")
+            sym = "==" if isinstance(n.ops[0], ast.Eq) else "!="
+            t, r = self.bind([(tr[0][0], tr[0][2]), (tr[1][0], tr[1][2])], lambda xs: f"({xs[0]} {sym} {xs[1]})")
+            return t, "bool", r
+        if isinstance(n, ast.Call) and isinstance(n.func, ast.Attribute) and n.func.attr == "startswith" and not n.keywords:
+            s, ts, rs = self.rexpr(n.func.value)
+            if ts != "str" or rs or not (1 <= len(n.args) <= 2):
+                self.bad(n, "startswith")
+            pfx, tp, rp = self.rexpr(n.args[0])
+            if tp != "str" or rp:
+                self.bad(n, "startswith prefix")
+            lo = self.opt(n.args[1] if len(n.args) > 1 else None)
+            return f"(Py.startswith {s} {pfx} {lo})", "bool", False
+        if isinstance(n, (ast.BinOp, ast.UnaryOp, ast.IfExp)):
+            subs = [x for x in ast.iter_child_nodes(n) if isinstance(x, ast.expr)]
+            if any(self.rexpr(x)[2] for x in subs):
+                self.bad(n, "index expression inside arithmetic")
+        t, ty = Fn.expr(self, n)
+        return t, ty, False
+
+    def toks(self, n):
+        if isinstance(n, ast.List) and not n.elts:
+            return "[]"
+        t, ty, r = self.rexpr(n)
+        if ty != "str" or r:
+            self.bad(n, "token value")
+        return f"[{t}]"
+
+    def block(self, stmts, ret_ty, ind):
+        pad = "  " * ind
+        if not stmts:
+            raise Untranslatable(f"{self.where}: control reaches the end of parseImpl without return / raise")
+        st, rest = stmts[0], stmts[1:]
+        if isinstance(st, ast.Expr) and isinstance(st.value, ast.Constant) and isinstance(st.value.value, str):
+            return self.block(rest, ret_ty, ind)
+        if isinstance(st, ast.Assign) and len(st.targets) == 1 and isinstance(st.targets[0], ast.Name):
+            e, t, r = self.rexpr(st.value)
+            if r:
+                self.bad(st, "assignment of an index expression")
+            self.env[st.targets[0].id] = t
+            return f"{pad}let {st.targets[0].id} := {e}\n" + self.block(rest, ret_ty, ind)
+        if isinstance(st, ast.Return) and isinstance(st.value, ast.Tuple) and len(st.value.elts) == 2:
+            e, t, r = self.rexpr(st.value.elts[0])
+            if t != "int" or r:
+                self.bad(st, "returned location")
+            return f"{pad}Py.Ret.ok {e} {self.toks(st.value.elts[1])}\n"
+        if isinstance(st, ast.Raise) and isinstance(st.exc, ast.Call) and isinstance(st.exc.func, ast.Name) \
+                and st.exc.func.id == "ParseException" and len(st.exc.args) >= 2 \
+                and isinstance(st.exc.args[0], ast.Name) and st.exc.args[0].id == "instring":
+            e, t, r = self.rexpr(st.exc.args[1])
+            if t != "int" or r:
+                self.bad(st, "exception location")
+            return f"{pad}Py.Ret.parseExc {e}\n"
+        if isinstance(st, ast.If):
+            c, tc, r = self.rexpr(st.test)
+            if tc != "bool":
+                self.bad(st, "if over non-bool")
+            saved = dict(self.env)
+            ends = lambda b: bool(b) and isinstance(b[-1], (ast.Return, ast.Raise))
+            a = self.block(st.body + ([] if ends(st.body) else rest), ret_ty, ind + 2)
+            self.env = dict(saved)
+            b = self.block((st.orelse or []) + ([] if st.orelse and ends(st.orelse) else rest), ret_ty, ind + 2)
+            self.env = saved
+            if r:
+                v = self.var()
+                return (f"{pad}match {c} with\n{pad}| none => Py.Ret.indexError\n"
+                        f"{pad}| some {v} =>\n{pad}  if {v} then\n{a}{pad}  else\n{b}")
+            return f"{pad}if {c} then\n{a}{pad}else\n{b}"
+        self.bad(st, "statement")
+
+    def lean(self):
+        f = self.f
+        names = [a.arg for a in f.args.args]
+        if names != ["self", "instring", "loc", "do_actions"] or f.args.vararg or f.args.kwarg or f.args.kwonlyargs:
+            self.bad(f, "parseImpl signature")
+        self.env = {"instring": "str", "loc": "int"}
+        body = self.block(f.body, "ret", 1)
+        lty = {"str": "List Char", "int": "Int", "chars": "List Char"}
+        params = "".join(f"(self_{a} : {lty[self.attrs[a]]}) " for a in sorted(self.used))
+        return f"def {self.name} {params}(instring : List Char) (loc : Int) : Py.Ret :=\n{body}"
+
+
+def translate_impls(classes, attrs, namespace, origin):
+    """classes: live element classes; translates each class's own `parseImpl`."""
+    out = [
+        "import PPModel.Base.PyStr",
+        f"/-! GENERATED by harness/py2lean.py from the live source of {origin} — do not edit.",
+        "    One Lean definition per `parseImpl` method; `self.<attr>` are parameters (sorted by name);",
+        "    `none` = IndexError raised by an index expression, propagated as `Py.Ret.indexError`. -/",
+        f"namespace {namespace}",
+        "open PP",
+        "",
+    ]
+    for cls in classes:
+        fn = cls.__dict__.get("parseImpl")
+        if fn is None:
+            raise Untranslatable(f"{cls.__name__} has no parseImpl of its own")
+        src = textwrap.dedent(inspect.getsource(fn))
+        fdef = ast.parse(src).body[0]
+        out.append(ImplFn(fdef, f"{origin}:{cls.__name__}.parseImpl", attrs, f"{cls.__name__.lstrip('_')}_parseImpl").lean())
+    out.append(f"end {namespace}")
+    return "\n".join(out) + "\n"
+
+
+LEAF_ATTRS = {"match": "str", "matchLen": "int", "firstMatchChar": "str", "wordChars": "chars", "errmsg": "str"}
+
+
+def leaf_classes(pp):
+    from pyparsing import core
+    return [pp.Empty, pp.NoMatch, pp.Literal, core._SingleCharLiteral, pp.StringEnd, pp.LineEnd, pp.WordStart, pp.WordEnd]
+
+
 def translate(objs, namespace, origin):
     """objs: list of live function objects (lru_cache wrappers are unwrapped).  Returns the text of a Lean file."""
     out = [
@@ -236,4 +450,7 @@ if __name__ == "__main__":
     pp = common.import_pyparsing()
     from pyparsing import util
 
-    print(translate([util.col, util.lineno, util.line], "PP.Gen.UtilSrc", "pyparsing/util.py"))
+    if "--leaves" in sys.argv:
+        print(translate_impls(leaf_classes(pp), LEAF_ATTRS, "PP.Gen.LeafSrc", "pyparsing/core.py"))
+    else:
+        print(translate([util.col, util.lineno, util.line], "PP.Gen.UtilSrc", "pyparsing/util.py"))
